@@ -96,6 +96,9 @@ pub struct SparqlCase {
 pub enum Update {
     InsertData(Vec<Tr>),
     DeleteData(Vec<Tr>),
+    /// `[DELETE {..}] [INSERT {..}] WHERE { ?s <p> ?o }` with variable templates; `shape`: 0 reverse the edge
+    /// (DELETE ?s p ?o / INSERT ?o p ?s), 1 move to predicate `p2`, 2 delete only, 3 copy to `p2` (insert only)
+    Modify { p: u8, p2: u8, shape: u8 },
 }
 
 #[derive(Debug, Clone, PartialEq, Eq, Hash, Serialize, Deserialize)]
@@ -223,6 +226,17 @@ pub fn render_update(u: &Update) -> String {
     let (kw, ts) = match u {
         Update::InsertData(ts) => ("INSERT DATA", ts),
         Update::DeleteData(ts) => ("DELETE DATA", ts),
+        Update::Modify { p, p2, shape } => {
+            let (p, p2) = (q_pred(*p).sparql(), q_pred(*p2).sparql());
+            let del = format!("DELETE {{ ?s {p} ?o }}");
+            let wh = format!("WHERE {{ ?s {p} ?o }}");
+            return match shape % 4 {
+                0 => format!("{del} INSERT {{ ?o {p} ?s }} {wh}"),
+                1 => format!("{del} INSERT {{ ?s {p2} ?o }} {wh}"),
+                2 => format!("{del} {wh}"),
+                _ => format!("INSERT {{ ?s {p2} ?o }} {wh}"),
+            };
+        }
     };
     format!("{kw} {{ {} }}", ts.iter().map(|t| format!("{} .", show_tr(t))).collect::<Vec<_>>().join(" "))
 }
@@ -1144,6 +1158,19 @@ pub fn check_update(case: &UpdateCase) -> CaseResult {
     let mut has_annot = false;
     for (i, u) in case.updates.iter().enumerate() {
         let text = render_update(u);
+        if let Update::Modify { p, .. } = u {
+            // variable bindings travel through the engine as lexical strings (known findings: language tag / datatype
+            // dropped, numeric-looking plain strings read as numbers): templates are only judged when every matched
+            // object survives that trip unchanged (IRIs, purely alphabetic plain strings)
+            let pp = q_pred(*p);
+            let risky = model
+                .iter()
+                .filter(|t| t.1 == pp)
+                .any(|t| !(matches!(&t.2, T::Iri(_)) || matches!(&t.2, T::Plain(x) if !x.is_empty() && x.chars().all(|c| c.is_ascii_alphabetic()))) || !matches!(&t.0, T::Iri(_)));
+            if risky {
+                continue;
+            }
+        }
         match exec(&db, case.via_session, &text)? {
             Ok(_) => {}
             Err(e) => return ok(false, err_class(&e), key),
@@ -1162,6 +1189,37 @@ pub fn check_update(case: &UpdateCase) -> CaseResult {
                     model.remove(t);
                     lossy.remove(&(t.0.clone(), t.1.clone(), annotation_dropped(&t.2)));
                     has_annot |= annotation_dropped(&t.2) != t.2;
+                }
+            }
+            Update::Modify { p, p2, shape } => {
+                // SPARQL 1.1 Update 3.1.3: the WHERE clause is evaluated once; all deletions (instantiated for every
+                // solution) happen before all insertions; an instantiation that is not a legal triple is skipped
+                let (pp, pp2) = (q_pred(*p), q_pred(*p2));
+                let sols: Vec<Tr> = model.iter().filter(|t| t.1 == pp).cloned().collect();
+                let (mut dels, mut ins): (Vec<Tr>, Vec<Tr>) = (Vec::new(), Vec::new());
+                for (s0, _, o0) in &sols {
+                    match shape % 4 {
+                        0 => {
+                            dels.push((s0.clone(), pp.clone(), o0.clone()));
+                            if !o0.is_literal() {
+                                ins.push((o0.clone(), pp.clone(), s0.clone()));
+                            }
+                        }
+                        1 => {
+                            dels.push((s0.clone(), pp.clone(), o0.clone()));
+                            ins.push((s0.clone(), pp2.clone(), o0.clone()));
+                        }
+                        2 => dels.push((s0.clone(), pp.clone(), o0.clone())),
+                        _ => ins.push((s0.clone(), pp2.clone(), o0.clone())),
+                    }
+                }
+                for t in &dels {
+                    model.remove(t);
+                    lossy.remove(&(t.0.clone(), t.1.clone(), annotation_dropped(&t.2)));
+                }
+                for t in ins {
+                    lossy.insert((t.0.clone(), t.1.clone(), annotation_dropped(&t.2)));
+                    model.insert(t);
                 }
             }
         }
@@ -1212,7 +1270,11 @@ pub fn check_update(case: &UpdateCase) -> CaseResult {
                 model.iter().filter(|t| t.1 == p).map(|t| vec![Some(t.0.lex()), Some(t.2.lex())]).collect(),
             ));
         }
-        let (Update::InsertData(ts) | Update::DeleteData(ts)) = u;
+        let no_triples: Vec<Tr> = Vec::new();
+        let ts = match u {
+            Update::InsertData(ts) | Update::DeleteData(ts) => ts,
+            Update::Modify { .. } => &no_triples,
+        };
         for t in ts {
             // constants with a language tag / other datatype and blank nodes cannot be written faithfully in a pattern here
             if annotation_dropped(&t.2) != t.2 || matches!(t.0, T::Blank(_)) || matches!(t.2, T::Blank(_)) {
@@ -1563,6 +1625,7 @@ pub fn update_strategy() -> impl Strategy<Value = UpdateCase> {
     let upd = prop_oneof![
         3 => proptest::collection::vec(update_triple(), 1..=3).prop_map(Update::InsertData),
         2 => proptest::collection::vec(update_triple(), 1..=3).prop_map(Update::DeleteData),
+        3 => (prop_oneof![3 => Just(0u8), 1 => 0u8..3], 0u8..3, 0u8..4).prop_map(|(p, p2, shape)| Update::Modify { p, p2, shape }),
     ];
     (proptest::collection::vec(update_triple(), 0..=6), any::<bool>(), proptest::collection::vec(upd, 1..=4), any::<u16>()).prop_map(
         |(data, via_session, mut updates, aim)| {
@@ -1584,5 +1647,5 @@ pub fn update_strategy() -> impl Strategy<Value = UpdateCase> {
 pub fn run(r: &mut Run) {
     let max_data = if r.is_thorough() { 24 } else { 14 };
     r.subcheck("sparql", r.cases(40_000, 1_500_000), move || case_strategy(max_data), check_query);
-    r.subcheck("update", r.cases(6_000, 200_000), update_strategy, check_update);
+    r.subcheck("update", r.cases(40_000, 1_000_000), update_strategy, check_update);
 }
